@@ -285,6 +285,7 @@ func checkPolicy(t *core.T, sig string, mk func() *xast.Policy, desc func() stri
 	_, _ = dirty.MarshalJSON()
 	_ = dirty.MarshalCedar()
 	_ = dirty.AST()
+	_ = dirty.UnmarshalJSON([]byte(`{"effect":"forbid","principal":{"op":"All"},"action":{"op":"All"},"resource":{"op":"All"},"conditions":[{"kind":"when","body":{"Value":true}},{"kind":"when","body":{"nope":1}}]}`)) // and a decode into it has just failed half way
 	if err := dirty.UnmarshalJSON(js); err != nil || Canon((*xast.Policy)(dirty.AST())) != want {
 		t.Fail("Policy.UnmarshalJSON-into-used-receiver:"+sig, in(), want, fmt.Sprintf("%v %s", err, Canon((*xast.Policy)(dirty.AST()))))
 	} else if a := authz(dirty); a != authz(orig) {
